@@ -1,4 +1,145 @@
-import EudoxiaModel.Model.SObs
+import EudoxiaModel.Model.Sched.Naive
+import EudoxiaModel.Proofs.Reach
+/-! # C17 — naive scheduler: whole-pool FIFO without retries or preemption
+    (`Naive.round multi`; the starter scheduler written by `eudoxia init` is `Naive.round false`) -/
 namespace Eudoxia.C17
-theorem placeholder : True := trivial
+open Eudoxia Eudoxia.Naive OpState Extracted
+
+/-- what the scan of the waiting queue for one pool hands out -/
+theorem pop_spec (multi : Bool) (pool cpu ram : Nat) : ∀ (queue : List Nat) (w : World) (req : List Nat) (w' : World) (rest req' : List Nat) (a : Asg),
+    pop w multi pool cpu ram queue req = .ok (w', rest, req', some a) →
+    a.pool = pool ∧ a.cpu = cpu ∧ a.ram = ram ∧ a.ops ≠ [] ∧
+    ∃ pid ∈ queue, w.hasFailures pid = false ∧ w.successful pid = false ∧ a.prio = w.prioOf pid ∧
+      a.ops = opsFor w multi pid := by
+  intro queue
+  induction queue with
+  | nil => intro w req w' rest req' a h; simp [pop] at h
+  | cons pid q ih =>
+    intro w req w' rest req' a h
+    unfold pop at h
+    split at h
+    · obtain ⟨h1, h2, h3, h4, p, hp, h5⟩ := ih _ _ _ _ _ _ h
+      exact ⟨h1, h2, h3, h4, p, List.mem_cons_of_mem _ hp, h5⟩
+    · rename_i hskip
+      split at h
+      · obtain ⟨h1, h2, h3, h4, p, hp, h5⟩ := ih _ _ _ _ _ _ h
+        exact ⟨h1, h2, h3, h4, p, List.mem_cons_of_mem _ hp, h5⟩
+      · rename_i hne
+        split at h
+        · cases h
+        · rename_i w1 a1 hmk
+          simp at h
+          obtain ⟨_, _, _, rfl⟩ := h
+          obtain ⟨rfl, _⟩ := mkA_ok hmk
+          simp only [Bool.or_eq_true, not_or, Bool.not_eq_true] at hskip
+          exact ⟨rfl, rfl, rfl, by simpa using hne, pid, by simp, hskip.2, hskip.1, rfl, rfl⟩
+
+/-- the loop over the pools: the new assignments go to distinct pools in pool order, each with all of its pool's free CPU and RAM -/
+theorem pools_spec (multi : Bool) : ∀ (ips : List (Nat × Pool)) (w : World) (queue req : List Nat) (acc : List Asg)
+    (w' : World) (queue' req' : List Nat) (out : List Asg),
+    pools multi w ips queue req acc = .ok (w', queue', req', out) →
+    ∃ new, out = acc ++ new ∧ (new.map (·.pool)).Sublist (ips.map (·.1)) ∧
+      ∀ a ∈ new, ∃ ip ∈ ips, ip.1 = a.pool ∧ 0 < ip.2.availC ∧ 0 < ip.2.availR ∧
+        (a.cpu : Int) = ip.2.availC ∧ (a.ram : Int) = ip.2.availR ∧ a.ops ≠ [] := by
+  intro ips
+  induction ips with
+  | nil => intro w queue req acc w' queue' req' out h; simp [pools] at h; exact ⟨[], by simp [h.2.2.2], by simp, by simp⟩
+  | cons ip ips ih =>
+    intro w queue req acc w' queue' req' out h
+    obtain ⟨i, p⟩ := ip
+    unfold pools at h
+    split at h
+    · obtain ⟨new, h1, h2, h3⟩ := ih _ _ _ _ _ _ _ _ h
+      exact ⟨new, h1, h2.trans (by simp), fun a ha => let ⟨x, hx, r⟩ := h3 a ha; ⟨x, List.mem_cons_of_mem _ hx, r⟩⟩
+    · rename_i hfree
+      simp only [Bool.or_eq_true, decide_eq_true_eq, not_or, Int.not_le] at hfree
+      split at h
+      · cases h
+      · rename_i w1 q1 r1 oa hp
+        cases oa with
+        | none =>
+          obtain ⟨new, h1, h2, h3⟩ := ih _ _ _ _ _ _ _ _ h
+          exact ⟨new, h1, h2.trans (by simp), fun a ha => let ⟨x, hx, r⟩ := h3 a ha; ⟨x, List.mem_cons_of_mem _ hx, r⟩⟩
+        | some a0 =>
+          obtain ⟨new, h1, h2, h3⟩ := ih _ _ _ _ _ _ _ _ h
+          obtain ⟨e1, e2, e3, e4, _⟩ := pop_spec multi i _ _ _ _ _ _ _ _ _ hp
+          refine ⟨a0 :: new, by simp [h1], by simp only [List.map_cons, e1]; exact h2.cons_cons i, ?_⟩
+          intro a ha
+          rcases List.mem_cons.mp ha with rfl | ha'
+          · refine ⟨(i, p), by simp, e1.symm, hfree.1, hfree.2, ?_, ?_, e4⟩
+            · rw [e2]; exact Int.toNat_of_nonneg (by omega)
+            · rw [e3]; exact Int.toNat_of_nonneg (by omega)
+          · obtain ⟨x, hx, r⟩ := h3 a ha'
+            exact ⟨x, List.mem_cons_of_mem _ hx, r⟩
+
+theorem indexed_mem {l : List Pool} {ip : Nat × Pool} (h : ip ∈ indexed l) : l[ip.1]? = some ip.2 := by
+  unfold indexed at h
+  obtain ⟨i, hi⟩ := List.mem_iff_getElem.mp h
+  obtain ⟨hlt, he⟩ := hi
+  simp only [List.getElem_zip, List.getElem_range] at he
+  rw [← he]
+  simp only [List.length_zip, List.length_range, Nat.min_self] at hlt
+  simp [hlt]
+
+theorem indexed_fst (l : List Pool) : (indexed l).map (·.1) = List.range l.length := by
+  unfold indexed
+  rw [List.map_fst_zip]
+  simp
+
+/-- **C17 per round.**  The naive scheduler (a) never suspends; (b) starts at most one container per pool — the assignments go to distinct
+pools, in pool order; (c) gives each all the CPU and RAM its pool has free at the start of the round. -/
+theorem one_container_per_pool_with_all_free_resources (multi : Bool) (w w' : World) (st st' : St) (res : List Res) (newP : List Nat) (dec : Decision)
+    (h : round multi w st res newP = .ok (w', st', dec)) :
+    dec.sus = [] ∧ (dec.asgs.map (·.pool)).Sublist (List.range w.pools.length) ∧
+    ∀ a ∈ dec.asgs, ∃ p, w.pools[a.pool]? = some p ∧ (a.cpu : Int) = p.availC ∧ (a.ram : Int) = p.availR ∧ a.ops ≠ [] := by
+  unfold round at h
+  split at h
+  · simp at h; obtain ⟨_, _, rfl⟩ := h; simp
+  · split at h
+    · cases h
+    · rename_i w1 q1 r1 asgs hp
+      simp at h; obtain ⟨_, _, rfl⟩ := h
+      obtain ⟨new, h1, h2, h3⟩ := pools_spec multi _ _ _ _ _ _ _ _ _ hp
+      simp only [List.nil_append] at h1
+      subst h1
+      refine ⟨rfl, by rw [← indexed_fst]; exact h2, ?_⟩
+      intro a ha
+      obtain ⟨ip, hip, e1, _, _, e2, e3, e4⟩ := h3 a ha
+      exact ⟨ip.2, by rw [← e1]; exact indexed_mem hip, e2, e3, e4⟩
+
+/-- **no retries; single-operator mode.**  Whatever the scan hands out belongs to one pipeline of the queue that has no failed operator (at that
+moment), and with multi-operator containers disabled it is exactly one operator, assignable and with all parents completed. -/
+theorem assigned_work_is_failure_free_and_ready (multi : Bool) (pool cpu ram : Nat) (queue : List Nat) (w : World) (req : List Nat)
+    (w' : World) (rest req' : List Nat) (a : Asg) (h : pop w multi pool cpu ram queue req = .ok (w', rest, req', some a)) :
+    ∃ pid ∈ queue, w.hasFailures pid = false ∧ (∀ o ∈ a.ops, o ∈ (w.pipes.getD pid default).order ∧ w.store.stOf o ∈ assignable) ∧
+      (multi = false → a.ops.length = 1 ∧ ∀ o ∈ a.ops, ∀ q ∈ w.store.parentsOf o, w.store.stOf q = completed) := by
+  obtain ⟨_, _, _, hne, pid, hpid, hf, _, _, hops⟩ := pop_spec multi pool cpu ram queue w req w' rest req' a h
+  refine ⟨pid, hpid, hf, ?_, ?_⟩
+  · intro o ho
+    rw [hops] at ho
+    unfold opsFor at ho
+    have hmem : o ∈ w.getOps pid assignable false ∨ o ∈ w.getOps pid assignable true := by
+      cases multi
+      · right; simp only [Bool.false_eq_true, ↓reduceIte] at ho; exact List.mem_of_mem_take ho
+      · left; simpa using ho
+    rcases hmem with hm | hm <;>
+    · unfold World.getOps at hm
+      obtain ⟨h1, h2⟩ := List.mem_filter.mp hm
+      simp only [Bool.and_eq_true, List.contains_iff_mem] at h2
+      exact ⟨h1, h2.1⟩
+  · intro hm
+    subst hm
+    simp only [opsFor, Bool.false_eq_true, ↓reduceIte] at hops
+    constructor
+    · have hl : a.ops.length ≤ 1 := by rw [hops]; simp [List.length_take]; omega
+      have : a.ops.length ≠ 0 := by intro h0; exact hne (List.length_eq_zero_iff.mp h0)
+      omega
+    · intro o ho q hq
+      rw [hops] at ho
+      have hm := List.mem_of_mem_take ho
+      unfold World.getOps at hm
+      have h2 := (List.mem_filter.mp hm).2
+      simp only [Bool.and_eq_true, Bool.not_true, Bool.false_or, List.all_eq_true, beq_iff_eq] at h2
+      exact h2.2 q hq
+
 end Eudoxia.C17
